@@ -813,6 +813,71 @@ async fn reading_the_past_is_a_permission_of_its_own() {
 }
 
 #[tokio::test]
+async fn a_coordinate_before_the_classification_does_not_read_around_it() {
+    // Spec §48.5: historical state must not be used to bypass current secrecy.
+    // Content cannot label itself, so every classified element has a version
+    // that predates its label.
+    let nexus = stocked("as_of_before_classify").await;
+    let owner = nexus.system_session();
+    let created = run_as(
+        &owner,
+        r#"CREATE CONCEPT ?c { TYPE "Person" NAME "Secret Note" }"#,
+    )
+    .await;
+    assert_eq!(created.status, TopLevelStatus::Succeeded);
+    let written_at = nexus.store.get_space(DEFAULT_SPACE).await.unwrap().seq;
+    owner
+        .classify(
+            DEFAULT_SPACE,
+            ElementId::new(anda_kip::ElementKind::Concept, 1),
+            "secret",
+        )
+        .await
+        .unwrap();
+
+    let gov = nexus.governance();
+    let reader = agent(gov, "kip:principal:reader").await;
+    gov.create_grant(
+        GrantDraft {
+            space_id: DEFAULT_SPACE.into(),
+            grantee_principal: reader.clone(),
+            actions: vec!["read".into(), "read_history".into()],
+            constraints: AuthorityConstraints {
+                max_classification: "internal".into(),
+                ..Default::default()
+            },
+            ..Default::default()
+        },
+        SYSTEM_PRINCIPAL,
+    )
+    .await
+    .unwrap();
+    let session = nexus.session(AuthContext::principal(&reader));
+
+    for pattern in [r#"{type: "Person"}"#, r#"{id: "C-1"}"#] {
+        let query =
+            format!("FIND(?c.name) WHERE {{ ?c CONCEPT {pattern} }} AS OF SEQ {written_at}");
+        let then = run_as(&owner, &query).await;
+        assert_eq!(
+            then.first_result().unwrap().as_array().unwrap().clone(),
+            vec![serde_json::json!("Secret Note")],
+            "the owner still reads the past: {query}"
+        );
+        let restricted = run_as(&session, &query).await;
+        assert_eq!(restricted.status, TopLevelStatus::Succeeded, "{query}");
+        assert!(
+            restricted
+                .first_result()
+                .unwrap()
+                .as_array()
+                .unwrap()
+                .is_empty(),
+            "a secret element is not readable through an earlier coordinate: {query}"
+        );
+    }
+}
+
+#[tokio::test]
 async fn a_writer_without_the_clause_permission_is_refused() {
     let nexus = stocked("clause_permissions").await;
     let gov = nexus.governance();
